@@ -125,7 +125,11 @@ func (d *DiskKV) Start() {
 			}
 		case m := <-d.queue:
 			var mutError error
-			if logError := d.appendLog(m.mut); logError == nil {
+			if rejectErr := d.validateMutation(m.mut); rejectErr != nil {
+				// decided before anything is appended: a crash can never
+				// leave a rejected mutation in the log
+				mutError = rejectErr
+			} else if logError := d.appendLog(m.mut); logError == nil {
 				mutError = d.handleMutation(m.mut)
 				if mutError != nil {
 					d.rollbackOne(m.mut, mutError)
